@@ -53,12 +53,12 @@ class RuleGen:
         if not leaves:
             return cond
         # a path as an ITEM of a list argument / a VALUE of a mapping argument (resolved like a whole argument)
-        nested = [(l, i) for l in leaves for i, a in enumerate(l.args) if isinstance(a, (list, dict)) and a
+        nested = [(l, i) for l in leaves for i, a in enumerate(l.args) if isinstance(a, (list, tuple, dict)) and a
                   and not (isinstance(a, list) and any(isinstance(x, type) for x in a))]
         if nested and self.r.random() < 0.35:
             l, i = self.r.choice(nested)
             a = l.args[i]
-            k = self.r.randrange(len(a)) if isinstance(a, list) else self.r.choice(list(a))
+            k = self.r.randrange(len(a)) if isinstance(a, (list, tuple)) else self.r.choice(list(a))
             lit = a[k]
             if self.plantable(lit):
                 if isinstance(doc, dict):
@@ -68,8 +68,13 @@ class RuleGen:
                 else:
                     doc.append(copy_value(lit))
                     p = PathT([Prim(len(doc) - 1)])
-                a = copy_value(a) if not isinstance(a, dict) else dict(a)
+                # (a list argument is sometimes given as the equal TUPLE instead: it then compares unequal to every list in the document,
+                # before and after its path items are resolved)
+                was_tuple = isinstance(a, tuple) or (isinstance(a, list) and self.r.random() < 0.25)
+                a = list(copy_value(a)) if not isinstance(a, dict) else dict(a)
                 a[k] = p
+                if was_tuple:
+                    a = tuple(a)        # a tuple argument stays a tuple when its path items are resolved
                 l.args[i] = a
                 return cond
         l = self.r.choice(leaves)
@@ -121,8 +126,8 @@ class RuleGen:
         cast = [self.r.choice(["bool", "int"])] if self.r.random() < cast_p else []
         return RuleT(pt, cond, cast)
 
-    def schema(self, doc, n_rules, cast_p=0.0):
-        rules = [self.rule(doc, cast_p=cast_p) for _ in range(n_rules)]
+    def schema(self, doc, n_rules, cast_p=0.0, path_args_p=0.0):
+        rules = [self.rule(doc, cast_p=cast_p, path_args_p=path_args_p) for _ in range(n_rules)]
         if rules and self.r.random() < 0.3:
             rules.insert(self.r.randint(0, len(rules)), self.sibling(self.r.choice(rules), doc, cast_p))
         if rules and self.r.random() < 0.1:
